@@ -196,7 +196,7 @@ def nightly_rustc():
     return _NIGHTLY
 
 
-_VOID_RE = re.compile(r"::\s*std\s*::\s*ffi\s*::\s*c_void")
+_VOID_RE = re.compile(r"::\s*(?:std|core)\s*::\s*(?:ffi|os\s*::\s*raw)\s*::\s*c_void")
 
 
 def _nocore_batch(idx, batch, outdir, target):
